@@ -37,8 +37,8 @@ def build(P):
         m = P["m"]
         return MirjaliliPlateletPerishable(
             max_demand=P["D"], max_useful_life=m, max_order_quantity=P["Q"],
-            useful_life_at_arrival_distribution_c_0=tuple([1.0, 0.5, 0.3, 0.2][: m - 1]),
-            useful_life_at_arrival_distribution_c_1=tuple([0.4, 0.0, -0.2, 0.1][: m - 1]),
+            useful_life_at_arrival_distribution_c_0=tuple([1.0, 0.5, 0.3, 0.2, 0.1, 0.6, 0.4][: m - 1]),
+            useful_life_at_arrival_distribution_c_1=tuple([0.4, 0.0, -0.2, 0.1, 0.3, -0.1, 0.2][: m - 1]),
             variable_order_cost=-c[0], fixed_order_cost=-c[1], shortage_cost=-c[2], wastage_cost=-c[3],
             holding_cost=-c[4])
     raise ValueError(k)
